@@ -6,22 +6,142 @@ trees with text merging, attribute merging, template contents, re-parenting, the
 "maybe clone an option into selectedcontent"); it recomputes the expected result line of every
 contract-abiding case and also checks parent-link consistency and serializer visit order directly on
 the implementation's dump.
+
+Two defects of rcdom/lib.rs are expected to be reported on the unchanged tree (KNOWN_MATCHERS ids
+`C20-selectedcontent`, `C20-before-sibling-reinsert`; minimal cases in corpus/C20/).  PROPOSED_PATCH
+below repairs both; it was validated on a scratch copy of rcdom (all cases of this module: 0 oracle
+failures, 0 disagreements with the model with both switches flipped).  After /repo is repaired:
+  * lean/H5V/Model/Dom.lean: `cloneVariant := .fixed` (selectedcontent) and/or
+    `beforeSiblingVariant := .detachFirst` (append_before_sibling);
+  * lean/H5V/Props/C20.lean: for `.detachFirst` nothing else (the general theorems hold for both
+    values; `C20_witness_before_sibling` then describes the old code only); for `.fixed`
+    `apply_eq_asCode` stops compiling — `WF`/`Kinds` preservation of `Dom.cloneOptionInto .fixed` is
+    not proved yet — and `C20_witness_clone_option` must go;
+  * harness/src/sinkops.rs: the shadow assumes `mc` detaches no handle-bearing node (see the NOTE
+    in `maybe_clone_an_option_into_selectedcontent`): after the repair the replaced children of the
+    selectedcontent are detached, mirror that there if a false CONTRACT-VIOLATION ever shows up.
 """
 import os
 import sys
+
+PROPOSED_PATCH = r'''
+--- a/rcdom/lib.rs
++++ b/rcdom/lib.rs
+@@ -195,20 +195,16 @@
+ 
+         // Step 2. Let selectedcontent be the first selectedcontent element descendant of select in tree order
+         // if any such element exists; otherwise return null.
+-        // FIXME: This does not visit the nodes in tree order
+-        let mut remaining = VecDeque::default();
+-        remaining.extend(self.children.borrow().iter().cloned());
++        let mut remaining: Vec<Rc<Self>> = self.children.borrow().iter().rev().cloned().collect();
+         let mut selectedcontent = None;
+-        while let Some(node) = remaining.pop_front() {
+-            remaining.extend(node.children.borrow().iter().cloned());
+-
+-            let NodeData::Element { name, .. } = &self.data else {
+-                continue;
+-            };
+-            if name.local_name() == &local_name!("selectedcontent") {
+-                selectedcontent = Some(node);
+-                break;
++        while let Some(node) = remaining.pop() {
++            if let NodeData::Element { name, .. } = &node.data {
++                if name.local_name() == &local_name!("selectedcontent") {
++                    selectedcontent = Some(node);
++                    break;
++                }
+             }
++            remaining.extend(node.children.borrow().iter().rev().cloned());
+         }
+         let selectedcontent = selectedcontent?;
+ 
+@@ -235,6 +231,12 @@
+         }
+ 
+         // Step 3. Replace all with documentFragment within selectedcontent.
++        for old_child in selectedcontent.children.borrow().iter() {
++            old_child.parent.set(None);
++        }
++        for child_clone in &document_fragment {
++            child_clone.parent.set(Some(Rc::downgrade(&selectedcontent)));
++        }
+         *selectedcontent.children.borrow_mut() = document_fragment;
+     }
+ 
+@@ -243,17 +245,36 @@
+     /// This function will run into infinite recursion when the DOM tree contains cycles and it makes
+     /// no attempts to guard against that.
+     fn clone_with_subtree(&self) -> Rc<Self> {
+-        let children = self
+-            .children
+-            .borrow()
+-            .iter()
+-            .map(|child| child.clone_with_subtree())
+-            .collect();
+-        Rc::new(Self {
+-            parent: Cell::new(self.parent()),
+-            data: self.data.clone(),
+-            children: RefCell::new(children),
+-        })
++        let data = match &self.data {
++            NodeData::Element {
++                name,
++                attrs,
++                template_contents,
++                mathml_annotation_xml_integration_point,
++            } => NodeData::Element {
++                name: name.clone(),
++                attrs: attrs.clone(),
++                template_contents: RefCell::new(
++                    template_contents
++                        .borrow()
++                        .as_ref()
++                        .map(|contents| contents.clone_with_subtree()),
++                ),
++                mathml_annotation_xml_integration_point: *mathml_annotation_xml_integration_point,
++            },
++            other => other.clone(),
++        };
++        let clone = Rc::new(Self {
++            parent: Cell::new(None),
++            data,
++            children: RefCell::new(Vec::new()),
++        });
++        for child in self.children.borrow().iter() {
++            let child_clone = child.clone_with_subtree();
++            child_clone.parent.set(Some(Rc::downgrade(&clone)));
++            clone.children.borrow_mut().push(child_clone);
++        }
++        clone
+     }
+ }
+ 
+@@ -447,6 +468,10 @@
+     }
+ 
+     fn append_before_sibling(&self, sibling: &Handle, child: NodeOrText<Handle>) {
++        // Detach first: the index of `sibling` must be taken after the removal.
++        if let NodeOrText::AppendNode(node) = &child {
++            remove_from_parent(node);
++        }
+         let (parent, i) = get_parent_and_index(sibling)
+             .expect("append_before_sibling called on node without parent");
+ 
+'''
 
 PROP = "C20"
 ENGINE = "rcdom"
 LEAN_TARGETS = ["H5V.Props.C20"]
 AUDIT_IMPORTS = ["H5V.Props.C20"]
 THEOREMS = ["H5V.Props.C20." + t for t in [
-    "C20_parent_links_step", "C20_parent_links", "C20_reachable_wf",
-    "C20_text_merge_append", "C20_text_merge_before_sibling", "C20_no_adjacent_text_step",
-    "C20_remove_breaks_adjacency_iff", "C20_attrs", "C20_attrs_no_overwrite", "C20_reparent",
-    "C20_template_contents", "C20_remove_from_parent", "C20_before_sibling_position_partial",
-    "C20_witness_before_sibling", "C20_clone_option_partial", "C20_witness_clone_option",
-    "C20_clone_option_fixed_example", "C20_serialize_preorder", "C20_serialize_each_node_once",
-    "C20_isAncOrSelf_iff",
+    "C20_parent_links_step", "C20_parent_links", "C20_reachable_inv", "C20_isAncOrSelf_iff",
+    "C20_text_merge_append", "C20_text_merge_before_sibling", "C20_no_adjacent_text_append",
+    "C20_no_adjacent_text_before_sibling", "C20_no_adjacent_text_step", "C20_remove_breaks_adjacency_iff", "C20_reparent_breaks_adjacency_iff",
+    "C20_attrs", "C20_attrs_no_overwrite", "C20_reparent", "C20_remove_from_parent", "C20_template_contents",
+    "C20_before_sibling_position_partial", "C20_witness_before_sibling",
+    "C20_clone_asCode_noop", "C20_clone_option_partial", "C20_witness_clone_option", "C20_clone_option_fixed_example",
+    "C20_serialize_preorder", "C20_serialize_each_node_once",
 ]]
 TRUSTED = [
     "Lean 4 kernel; axioms ⊆ {propext, Classical.choice, Quot.sound} (audited per run)",
@@ -773,7 +893,8 @@ HTML_TOKENS = {
     "template": ["<template>", "</template>", "<td>", "<tr>", "<col>", "<div>", "x", "<template shadowrootmode=open>",
                  "<b>", "</b>", "<table>", "</table>", "<!--c-->", "<script>", "</script>", "<frameset>", "<caption>", "<body>"],
     "select": ["<select>", "<select multiple>", "<option>", "<option selected>", "<option selected>", "<optgroup>",
-               "<selectedcontent>", "</selectedcontent>", "<button>", "</button>", "</option>", "</optgroup>", "</select>",
+               "<selectedcontent>", "</selectedcontent>", "<button>", "</button>", "</option>", "</option>", "</option>",
+               "</optgroup>", "</select>",
                "<datalist>", "<hr>", "A", "<b>", "</b>", "<div>", "</div>", "<span>", "<input>", "<option selected value=v>",
                "<template>", "</template>", "<!--c-->"],
     "skeleton": ["<!DOCTYPE html>", "<!DOCTYPE html PUBLIC \"-//W3C//DTD HTML 4.01 Transitional//EN\">", "<html lang=en>",
@@ -989,4 +1110,6 @@ def extra_evidence(check):
     return {
         "harvest": _STATS.get("harvest"),
         "clone_variant_modelled": "asCode (H5V.Model.Dom.cloneVariant); the oracle demands the standard's behaviour",
+        "before_sibling_variant_modelled": "asCode (H5V.Model.Dom.beforeSiblingVariant); the oracle demands insertion immediately before the sibling",
+        "proposed_patch": PROPOSED_PATCH,
     }
